@@ -268,24 +268,16 @@ func marshalArgType(ci ssa.CallInstruction) types.Type {
 }
 
 func ruleAsn1Cert(c *Ctx, r *Rep) {
-	// the function that stores PEM type CERTIFICATE and calls asn1.Marshal
+	// the function that produces a PEM block of type CERTIFICATE and calls asn1.Marshal
 	var found bool
-	for _, fn := range c.Funcs {
-		writesCert := false
-		for _, b := range fn.Blocks {
-			for _, ins := range b.Instrs {
-				if st, ok := ins.(*ssa.Store); ok {
-					if fa, ok := st.Addr.(*ssa.FieldAddr); ok && fieldOfAddr(fa).Name() == "Type" && typeIs(fa.X.Type().Underlying().(*types.Pointer).Elem(), "encoding/pem", "Block") {
-						if k, ok := st.Val.(*ssa.Const); ok && k.Value != nil && constant.StringVal(k.Value) == "CERTIFICATE" {
-							writesCert = true
-						}
-					}
-				}
-			}
-		}
-		if !writesCert {
+	pw, _ := c.pemWrites()
+	done := map[*ssa.Function]bool{}
+	for _, w := range pw {
+		if w.typ != "CERTIFICATE" || done[w.fn] {
 			continue
 		}
+		done[w.fn] = true
+		fn := w.fn
 		for _, ci := range callsIn(fn) {
 			if calleeFullName(ci) == "encoding/asn1.Marshal" {
 				found = true
@@ -552,24 +544,32 @@ func ruleAsn1Adm(c *Ctx, r *Rep) {
 	}
 	// hand-assembled parts
 	mfn := c.methodOf(admissions, "marshal")
+	// wrapper helpers: module functions of one parameter that build exactly one RawValue around it
+	isWrapper := func(f *ssa.Function) (rawLit, bool) {
+		if f == nil || !c.InModule(f) || f == partial || len(f.Params) != 1 || f.Blocks == nil {
+			return rawLit{}, false
+		}
+		if lits := rawValueLiterals(f); len(lits) == 1 {
+			return lits[0], true
+		}
+		return rawLit{}, false
+	}
 	var explicitFn *ssa.Function
 	explicitArgOK := false
 	for _, ci := range callsIn(mfn) {
 		f := ci.Common().StaticCallee()
-		if f == nil || !c.InModule(f) || f == partial || len(f.Params) != 1 {
+		l, ok := isWrapper(f)
+		if !ok || (l.class == 0 && l.tag == 16) { // a SEQUENCE wrapper is checked below
 			continue
 		}
-		if lits := rawValueLiterals(f); len(lits) == 1 {
-			explicitFn = f
-			l := lits[0]
-			r.Check(l.class == 2 && l.tag == 0 && l.compound, "explicit-wrapper|"+c.FuncKey(f), c.Pos(l.pos), "[0] EXPLICIT = context-specific, constructed, tag 0", sprintf("class %d tag %d constructed %v", l.class, l.tag, l.compound))
-			// its argument is the marshalled AdmissionAuthority (field 0)
-			for _, pe := range phiEdges(ci.Common().Args[0], ci.Block()) {
-				if ex, ok := pe.Val.(*ssa.Extract); ok {
-					if call, ok := ex.Tuple.(*ssa.Call); ok && call.Call.IsInvoke() && call.Call.Method.Name() == "marshal" {
-						if f := fieldLoad(call.Call.Value); f != nil && f == admissions.Underlying().(*types.Struct).Field(0) {
-							explicitArgOK = true
-						}
+		explicitFn = f
+		r.Check(l.class == 2 && l.tag == 0 && l.compound, "explicit-wrapper|"+c.FuncKey(f), c.Pos(l.pos), "[0] EXPLICIT = context-specific, constructed, tag 0", sprintf("class %d tag %d constructed %v", l.class, l.tag, l.compound))
+		// its argument is the marshalled AdmissionAuthority (field 0)
+		for _, pe := range phiEdges(ci.Common().Args[0], ci.Block()) {
+			if ex, ok := pe.Val.(*ssa.Extract); ok {
+				if call, ok := ex.Tuple.(*ssa.Call); ok && call.Call.IsInvoke() && call.Call.Method.Name() == "marshal" {
+					if f := fieldLoad(call.Call.Value); f != nil && f == admissions.Underlying().(*types.Struct).Field(0) {
+						explicitArgOK = true
 					}
 				}
 			}
@@ -585,20 +585,61 @@ func ruleAsn1Adm(c *Ctx, r *Rep) {
 		}
 	}
 	r.Check(!callsWrapper, "admission-authority-untagged", c.FnPos(ofn), "AdmissionSyntax.admissionAuthority is an untagged GeneralName", sprintf("explicit wrapper used: %v", callsWrapper))
-	// all SEQUENCE wrappers are universal 16 constructed
-	for _, f := range []*ssa.Function{mfn, ofn, c.methodOf(profInfo, "marshal")} {
+	// all SEQUENCE wrappers are universal 16 constructed: in the three marshal methods and in the module helpers they call
+	pfn := c.methodOf(profInfo, "marshal")
+	var assemblers []*ssa.Function
+	seenAsm := map[*ssa.Function]bool{}
+	var addAsm func(f *ssa.Function, d int)
+	addAsm = func(f *ssa.Function, d int) {
+		if f == nil || seenAsm[f] || f == partial || f == explicitFn || !c.InModule(f) || f.Blocks == nil || d > 4 {
+			return
+		}
+		seenAsm[f] = true
+		assemblers = append(assemblers, f)
+		for _, ci := range callsIn(f) {
+			if !ci.Common().IsInvoke() {
+				addAsm(ci.Common().StaticCallee(), d+1)
+			}
+		}
+	}
+	for _, f := range []*ssa.Function{mfn, ofn, pfn} {
+		addAsm(f, 0)
+	}
+	nSeq := 0
+	for _, f := range assemblers {
 		for i, l := range rawValueLiterals(f) {
+			nSeq++
 			r.Check(l.class == 0 && l.tag == 16 && l.compound, sprintf("sequence-wrapper|%s#%d", c.FuncKey(f), i), c.Pos(l.pos), "universal SEQUENCE (16), constructed", sprintf("class %d tag %d constructed %v", l.class, l.tag, l.compound))
 		}
 	}
+	if nSeq == 0 {
+		r.Undecided("floor:sequence-wrappers", c.FnPos(mfn), "no SEQUENCE wrapper found in the admission marshal methods or their helpers")
+	}
 	// profession items as UTF8String
-	pfn := c.methodOf(profInfo, "marshal")
 	itemsOK := false
-	for _, ci := range callsIn(pfn) {
-		if calleeFullName(ci) == "encoding/asn1.MarshalWithParams" {
-			if k, ok := ci.Common().Args[1].(*ssa.Const); ok && k.Value != nil {
-				itemsOK = constant.StringVal(k.Value) == "utf8"
-				r.Check(itemsOK, "profession-items-utf8", c.Pos(ci.Pos()), "profession items as UTF8String (DirectoryString)", constant.StringVal(k.Value))
+	for _, f := range assemblers {
+		if f != pfn {
+			// a helper counts when the profession-info method hands it the items
+			called := false
+			for _, ci := range callsIn(pfn) {
+				if ci.Common().StaticCallee() == f {
+					for _, a := range ci.Common().Args {
+						if fl := fieldLoad(a); fl != nil && fl.Name() == "ProfessionItems" {
+							called = true
+						}
+					}
+				}
+			}
+			if !called {
+				continue
+			}
+		}
+		for _, ci := range callsIn(f) {
+			if calleeFullName(ci) == "encoding/asn1.MarshalWithParams" {
+				if k, ok := ci.Common().Args[1].(*ssa.Const); ok && k.Value != nil {
+					itemsOK = constant.StringVal(k.Value) == "utf8"
+					r.Check(itemsOK, "profession-items-utf8", c.Pos(ci.Pos()), "profession items as UTF8String (DirectoryString)", constant.StringVal(k.Value))
+				}
 			}
 		}
 	}
